@@ -293,6 +293,57 @@ func c08Manifests(run *evid.Run, seed int64, n int) []string {
 	return out
 }
 
+// c08ViaLoaders: "reading it back" also means through the log loaders: entries written by a small log (both
+// codecs, references present) are read back through the manifest and the entry-hash loaders with the same codec
+// and compared field by field with what was written.
+func c08ViaLoaders(run *evid.Run, n int) {
+	parallel(n, func(i int) {
+		codec := []string{"link", "cbor", "link2"}[i%3]
+		w := hx.NewWorld(run.Seed, 2, fmt.Sprintf("c08l-%d", i), "hash", codec)
+		l := w.NewLog(i % 2)
+		written := map[string]iface.IPFSLogEntry{}
+		for k := 0; k < 4+i%7; k++ {
+			e, err := l.Append(w.Ctx, classPayload(payloadClasses[(i+k)%len(payloadClasses)], fmt.Sprintf("%d/%d/%d", run.Seed, i, k), rand.New(rand.NewSource(int64(i*100+k)))), &iface.AppendOptions{PointerCount: 1 << uint(k%5)})
+			if err != nil {
+				run.Violate("C08/create-error", det("codec", codec), nil, "append failed: %v", err)
+				return
+			}
+			written[e.GetHash().String()] = e
+		}
+		mc, err := l.ToMultihash(w.Ctx)
+		if err != nil {
+			return
+		}
+		for _, loader := range []string{"manifest", "hash"} {
+			var back *ipfslog.IPFSLog
+			if loader == "manifest" {
+				back, err = w.LoadManifest(mc, 0, &hx.LoadOpts{})
+			} else {
+				back, err = w.LoadHash(l.Heads().Slice()[0].GetHash(), 0, &hx.LoadOpts{})
+			}
+			run.Count("logs_read_back_via_"+loader+"_"+codec, 1)
+			d := det("codec", codec, "loader", loader)
+			if err != nil || back == nil {
+				run.Violate("C08/read-back-error", d, map[string]any{"case": i}, "reading a %s log back through the %s loader failed: %v", codec, loader, err)
+				continue
+			}
+			if back.Len() != len(written) {
+				run.Violate("C08/read-back-differs", d, map[string]any{"case": i, "written": len(written), "read": back.Len()}, "a log of %d entries written with the %s codec reads back %d entries through the %s loader", len(written), codec, back.Len(), loader)
+				continue
+			}
+			for _, b := range back.GetEntries().Slice() {
+				if o, ok := written[b.GetHash().String()]; !ok {
+					run.Violate("C08/read-back-differs", d, map[string]any{"case": i}, "read back an entry that was not written")
+				} else if f := entryFieldsDiff(o, b, true); f != "" {
+					run.Violate("C08/read-back-differs", det("codec", codec, "loader", loader, "field", f), map[string]any{"case": i, "entry": b.GetHash().String()}, "entry read back through the %s loader differs in %s (%s codec)", loader, f, codec)
+				}
+			}
+		}
+		run.Eval(1)
+		run.NonTrivial(fmt.Sprintf("via-loader/%s/%d", codec, len(written)))
+	})
+}
+
 func model_eqCids(a, b []cid.Cid) bool {
 	if len(a) != len(b) {
 		return false
@@ -427,6 +478,7 @@ func CheckC08(run *evid.Run) {
 	run.Eval(n)
 	mlist := c08Manifests(run, run.Seed, nm)
 	run.Eval(nm)
+	c08ViaLoaders(run, pick(run.Tier, 120, 1500))
 	pinned := c08Pinned(run)
 	run.Eval(len(pinned))
 	// cross-process determinism on a prefix of the corpus
